@@ -51,6 +51,11 @@ ASSUMPTIONS = [
     "observation/reward rtol 1e-4 atol 1e-4; MuJoCo solver by-products (qacc*, qfrc_*, efc_*, contact, actuator_*, "
     "sensordata ...) rtol 1e-3 atol 1e-3 because the constraint solver amplifies float32 reassociation (measured "
     "jit-vs-vmap on HalfCheetah: 4e-5 of the leaf scale); solver iteration counters are not compared",
+    "MJX-private collision workspace: rows of `sim_state._impl.contact.*` that belong to candidate pairs separated by more "
+    "than 1e-3 in both answers are not compared (measured on Pusher, geoms 15/18 at distance 0.53: eager and jit return "
+    "closest points 1.2 cm apart -- a tie in MJX's closest-point search resolved by rounding -- while qpos, qvel and every "
+    "force agree bit for bit); the distance itself, touching contacts, constraint forces, accelerations and the next state "
+    "are compared",
     "an integer/bool mismatch between modes is excused as a float32 threshold tie (counted, not judged) only if "
     "perturbing the float inputs of the reference call by 3e-6 relative also flips it",
     "conditioning triage (only reached when a float leaf exceeds the tolerance above): the reference call is repeated "
@@ -129,9 +134,19 @@ def _cmp(want, got, tol, fn="", exact_only=False, skip_exact=False, slack=None):
     if [p for p, _ in fw] != [p for p, _ in fg]:
         return {"kind": "structure", "want_paths": [p for p, _ in fw][:8], "got_paths": [p for p, _ in fg][:8]}
     worst = None
+    # MJX candidate contacts that are clearly separated in both answers (dist > 1e-3) carry no force; their closest-point
+    # geometry is not compared (see ASSUMPTIONS)
+    sep = {}
+    for (p, a), (_, b) in zip(fw, fg):
+        if p.endswith("._impl.contact.dist") and a.ndim == 1 and a.shape == b.shape:
+            sep[p[: -len("dist")]] = (a > 1e-3) & (b > 1e-3)
     for (p, a), (_, b) in zip(fw, fg):
         if a.shape != b.shape or a.dtype != b.dtype:
             return {"kind": "structure", "leaf": p, "want": f"{a.dtype}{a.shape}", "got": f"{b.dtype}{b.shape}"}
+        if sep and "._impl.contact." in p:
+            m = sep.get(p[: p.index("._impl.contact.") + len("._impl.contact.")])
+            if m is not None and a.ndim >= 1 and a.shape[0] == m.shape[0] and not p.endswith(".dist"):
+                a, b = a[~m], b[~m]
         if a.size == 0:
             continue
         if np.issubdtype(a.dtype, np.inexact):
